@@ -6,16 +6,21 @@ import "sort"
 
 // Accessor of the C20 group, injected by the verification harness through `go build -overlay` (never committed).
 
-// XVKeys returns the names of all jobs in the quartz queue, sorted.
-func XVKeys(s *Scheduler) []string {
+// XVKeys returns (group, name) of all jobs in the quartz queue, sorted by group, then name.
+func XVKeys(s *Scheduler) [][2]string {
 	keys, err := s.scheduler.GetJobKeys()
 	if err != nil {
-		return []string{"<error:" + err.Error() + ">"}
+		return [][2]string{{"<error>", err.Error()}}
 	}
-	out := make([]string, 0, len(keys))
+	out := make([][2]string, 0, len(keys))
 	for _, k := range keys {
-		out = append(out, k.Name())
+		out = append(out, [2]string{k.Group(), k.Name()})
 	}
-	sort.Strings(out)
+	sort.Slice(out, func(i, j int) bool {
+		if out[i][0] != out[j][0] {
+			return out[i][0] < out[j][0]
+		}
+		return out[i][1] < out[j][1]
+	})
 	return out
 }
